@@ -5,12 +5,20 @@ TD(n, d, ps, bs) == [name |-> n, description |-> d, params |-> ps, bspec |-> bs]
 OD(n, d, m, sg, b) == [name |-> n, description |-> d, misc |-> m, sig |-> sg, binary |-> b]
 Sig(ps, i, o, rs) == [params |-> ps, body |-> [t |-> "G", input |-> i, output |-> o, runtime_reqs |-> rs]]
 PoolT == {TD("T1", "t1 dësc", <<ParamType("A")>>, FromParams(<<0>>)), TD("T2", "", <<>>, Explicit("C")),
-          TD("T3", "nat", <<ParamNat(-1), ParamType("C")>>, Explicit("A"))}
+          TD("T3", "nat", <<ParamNat(-1), ParamType("C")>>, Explicit("A")),
+          TD("T4", "unordered indices", <<ParamType("A"), ParamType("A")>>, FromParams(<<1, 0>>)),       \* index lists are kept as written:
+          TD("T5", "repeated index", <<ParamType("C"), ParamType("A")>>, FromParams(<<1, 1>>))}          \* neither sorted nor deduplicated
 PoolO == {OD("o1", "o1", "none", Sig(<<>>, <<QubitT>>, <<QubitT>>, {}), FALSE),
           OD("o2", "", "m1", Sig(<<ParamType("A")>>, <<Var(0, "A")>>, <<OpaqueT("verif.ext", "T1", <<TyArg(Var(0, "A"))>>, "A")>>, {"other.ext"}), FALSE),
           OD("o3", "binary computed", "none", NoSig, TRUE),
           OD("o4", "both", "none", Sig(<<ParamNat(7)>>, <<>>, <<BoolT>>, {"verif.ext"}), TRUE)}
-PoolV == {[name |-> "v", val |-> [v |-> "Sum", tag |-> 1, typ |-> UnitSumT(2), vs |-> <<>>]]}
+IntC == [v |-> "Extension", extensions |-> <<"arithmetic.int.types">>, typ |-> OpaqueT("arithmetic.int.types", "int", <<NatArg(5)>>, "C"),
+         value |-> [c |-> "ConstInt", v |-> [log_width |-> 5, value |-> 3]]]                                      \* an extension constant names the extensions it uses
+PoolV == {[name |-> "v", val |-> [v |-> "Sum", tag |-> 1, typ |-> UnitSumT(2), vs |-> <<>>]],
+          [name |-> "vi", val |-> IntC],
+          [name |-> "vt", val |-> [v |-> "Tuple", vs |-> <<IntC, [v |-> "Sum", tag |-> 0, typ |-> UnitSumT(2), vs |-> <<>>]>>]]}
+CONSTANT MaxAdds                 \* bound on the number of definitions added in one behaviour
+Small == Len(hist) <= MaxAdds
 MCInit == Init /\ hist = <<>>
 MCNext == \/ \E d \in TypeDefs : d.name \notin DOMAIN ext.types /\ AddTypeDef(d) /\ hist' = Append(hist, [a |-> "AddTypeDef", d |-> d])
           \/ \E d \in OpDefs : d.name \notin DOMAIN ext.ops /\ AddOpDef(d) /\ hist' = Append(hist, [a |-> "AddOpDef", d |-> d])
